@@ -38,7 +38,10 @@ KC_all == {"M", "mM", "uM", "molm3", "molcm3"}
 KC_two == {"mM", "molcm3"}
 KT_all == {"s", "min", "h", "ms"}
 KT_two == {"min", "ms"}
-Calls_all == AllCallKinds
+Calls_all == { [k |-> kk, z |-> {}] : kk \in AllCallKinds } \cup
+             { [k |-> kk, z |-> zz] : kk \in {"good", "bad", "bad2"}, zz \in {{"A"}, {"B"}, SubstSet} }
+Plans_q == {0, 2, 5}
+Plans_t == {0, 2, 5, 6}
 Calls_none == {}
 KRegs2 == {KRegSI, [length |-> "dm", mass |-> "g", time |-> "ms", current |-> "A", temperature |-> "K", amount |-> "umol"]}
 KRegs3 == KRegsScaled \cup KRegs2 \cup {[length |-> "cm", mass |-> "g", time |-> "min", current |-> "A", temperature |-> "K", amount |-> "mmol"]}
